@@ -65,7 +65,7 @@ def _vsock_component():
     # model agrees with the real VirtualSocket on closing scenarios (shared generators + the FIN/RESET/drop
     # scenarios of C17)
     from . import vsock_common, c17
-    c = vsock_common.component("c08_deadline_ok", name="vsock_deadline")
+    c = vsock_common.component("c08_deadline_ok+c08_fires_ok", name="vsock_deadline")
     if hasattr(c17, "gen"):
         c["gen"] = lambda rng, tier: c17.gen(rng, tier) + gen_close_outstanding(
             rng.fork("close_outstanding"), 150 if tier == "quick" else 3000)
